@@ -631,8 +631,19 @@ func vkRun(o *vkOut, sc vkScenario, choose func(step int, el []int) int) (lines 
 				inFlight = fmt.Sprintf("thread %d (%s) is in %s", th.id, th.kind, th.parked.point)
 			}
 		}
+		npclose := 0
+		for _, th := range w.byID {
+			if th.kind == "pclose" {
+				npclose++
+			}
+		}
 		returned := ""
 		for _, th := range w.byID {
+			// a provider.Close that loses the provider's CAS returns at once (FINDINGS.md F4, the model
+			// agrees): with several provider.Close calls in the scenario a returned one proves nothing
+			if th.kind == "pclose" && npclose > 1 {
+				continue
+			}
 			if (th.kind == "close" || th.kind == "pclose") && th.done && th.res == "nil" {
 				returned = fmt.Sprintf("thread %d (%s)", th.id, th.kind)
 			}
